@@ -241,6 +241,12 @@ func (ex *Exec) daysIn(y, m *smt.Term) *smt.Term {
 func (ex *Exec) localSec(t TimeV) *smt.Term { return ex.b.Add(t.sec, ex.locOffset(t.loc)) }
 
 func (ex *Exec) timeYMD(t TimeV) (y, m, d *smt.Term) {
+	if t.ymd == nil {
+		// an instant whose civil date was established earlier on this path (e.g. it went through UnixMicro and back)
+		if e, ok := ex.ymdMemo[ex.localSec(t).ID]; ok {
+			t.ymd, t.ymdIf = e.ymd, e.cond
+		}
+	}
 	if t.ymd != nil && t.ymdIf == nil {
 		return t.ymd[0], t.ymd[1], t.ymd[2]
 	}
@@ -315,7 +321,19 @@ func (ex *Exec) mkDate(y, m, d, h, mi, s, ns *smt.Term, loc *LocV) TimeV {
 		t.ymd = &[3]*smt.Term{y1, m1, d}
 		t.ymdIf = valid
 	}
+	if t.ymd != nil {
+		if ex.ymdMemo == nil {
+			ex.ymdMemo = map[int]ymdEntry{}
+		}
+		ex.ymdMemo[ex.localSec(t).ID] = ymdEntry{t.ymd, t.ymdIf}
+	}
 	return t
+}
+
+// ymdEntry: the civil date known for a local-seconds term on the current path (cond nil = unconditionally).
+type ymdEntry struct {
+	ymd  *[3]*smt.Term
+	cond *smt.Term
 }
 
 func (ex *Exec) timeFromGo(t time.Time) TimeV {
@@ -535,6 +553,10 @@ func init() {
 	reg("time.UnixMicro", func(ex *Exec, fr *frame, pos token.Pos, args []value) value {
 		us := args[0].(*smt.Term)
 		b := ex.b
+		if t, ok := ex.usMemo[us.ID]; ok {
+			// the microsecond count of a known instant: the same instant, truncated to microseconds
+			return TimeV{sec: t.sec, nsec: b.Sub(t.nsec, b.Mod(t.nsec, ex.k(1000))), loc: locLocal}
+		}
 		return TimeV{sec: b.Div(us, ex.k(1000000)), nsec: b.Mul(b.Mod(us, ex.k(1000000)), ex.k(1000)), loc: locLocal}
 	})
 	reg("time.Unix", func(ex *Exec, fr *frame, pos token.Pos, args []value) value {
@@ -637,7 +659,14 @@ func init() {
 	reg("(time.Time).UnixMicro", func(ex *Exec, fr *frame, pos token.Pos, args []value) value {
 		t := ex.asTime(args[0])
 		b := ex.b
-		return b.Wrap(b.Add(b.Mul(t.sec, ex.k(1000000)), b.Div(t.nsec, ex.k(1000))), 64, true)
+		us := b.Wrap(b.Add(b.Mul(t.sec, ex.k(1000000)), b.Div(t.nsec, ex.k(1000))), 64, true)
+		if us.Lo != nil && us.Hi != nil && us.Lo.IsInt64() && us.Hi.IsInt64() { // no wrap-around
+			if ex.usMemo == nil {
+				ex.usMemo = map[int]TimeV{}
+			}
+			ex.usMemo[us.ID] = t
+		}
+		return us
 	})
 	reg("(time.Time).Unix", func(ex *Exec, fr *frame, pos token.Pos, args []value) value {
 		return ex.asTime(args[0]).sec
